@@ -1,6 +1,7 @@
 package rules
 
 import (
+	"go/token"
 	"go/types"
 
 	"golang.org/x/tools/go/ssa"
@@ -103,11 +104,40 @@ func capitalisationGate(p *core.Program) *ssa.Function {
 }
 
 // alternationPredicate resolves, by role, the helper Kind() uses to recognise
-// the alternating layout: a bool method on Tokens testing index parity.
+// the alternating layout: the bool function whose positive outcome guards the
+// return of the kind that the decoder decodes by index parity. (Fallback: a
+// bool method on Tokens testing index parity.)
 func alternationPredicate(p *core.Program) *ssa.Function {
 	kind := p.Method("Tokens", "Kind")
 	if kind == nil {
 		return nil
+	}
+	if k, ok := alternatingKind(p); ok {
+		var found *ssa.Function
+		n := 0
+		for _, ret := range core.Returns(kind) {
+			if len(ret.Results) != 1 {
+				continue
+			}
+			if c, isC := core.ConstInt(ret.Results[0]); !isC || c != k {
+				continue
+			}
+			for _, g := range core.Guards(ret.Block()) {
+				call, isCall := g.Cond.(*ssa.Call)
+				if !isCall || !g.Pos {
+					continue
+				}
+				if f := core.StaticCallee(call); f != nil && p.InLib(f) && f.Blocks != nil {
+					if found != f {
+						n++
+					}
+					found = f
+				}
+			}
+		}
+		if n == 1 {
+			return found
+		}
 	}
 	for _, c := range core.Calls(kind) {
 		f := core.StaticCallee(c)
@@ -129,4 +159,36 @@ func alternationPredicate(p *core.Program) *ssa.Function {
 		}
 	}
 	return nil
+}
+
+// alternatingKind: the IndexKind constant under which the decoder assigns
+// token types by index parity.
+func alternatingKind(p *core.Program) (int64, bool) {
+	dec := p.Func("Tokenize")
+	if dec == nil {
+		return 0, false
+	}
+	var kinds []int64
+	core.Instrs(dec, func(in ssa.Instruction) {
+		phi, ok := in.(*ssa.Phi)
+		if !ok || len(parityPhiMap(phi)) != 2 {
+			return
+		}
+		for _, g := range core.Guards(phi.Block()) {
+			rel, ok := core.AsRel(g)
+			if !ok || rel.Op != token.EQL {
+				continue
+			}
+			if core.NamedOf(rel.X.Type()) != core.ModulePath+".IndexKind" {
+				continue
+			}
+			if k, isC := core.ConstInt(rel.Y); isC {
+				kinds = append(kinds, k)
+			}
+		}
+	})
+	if len(kinds) == 1 {
+		return kinds[0], true
+	}
+	return 0, false
 }
